@@ -8,8 +8,6 @@ import (
 	"strconv"
 	"sync"
 	"time"
-
-	"github.com/anthdm/hollywood/safemap"
 )
 
 // Remoter is an interface that abstract a remote that is tied to an engine.
@@ -35,7 +33,7 @@ type Engine struct {
 	remote      Remoter
 	eventStream *PID
 	// processes that are unregistered already but have not handled Stopped yet.
-	stopping *safemap.SafeMap[string, *process]
+	stopping sync.Map // id -> *process
 }
 
 // EngineConfig holds the configuration of the engine.
@@ -57,7 +55,7 @@ func (config EngineConfig) WithRemote(remote Remoter) EngineConfig {
 
 // NewEngine returns a new actor Engine given an EngineConfig.
 func NewEngine(config EngineConfig) (*Engine, error) {
-	e := &Engine{stopping: safemap.New[string, *process]()}
+	e := &Engine{}
 	e.Registry = newRegistry(e) // need to init the registry in case we want a custom deadletter
 	e.address = LocalLookupAddr
 	if config.remote != nil {
@@ -243,7 +241,7 @@ func (e *Engine) sendPoisonPill(ctx context.Context, graceful bool, pid *PID) co
 		// The process can be unregistered and still be handling Stopped: the
 		// context must not be done before it is.
 		if pid != nil {
-			if proc, ok := e.stopping.Get(pid.ID); ok && proc.awaitStop(cancel) {
+			if proc, ok := e.stopping.Load(pid.ID); ok && proc.(*process).awaitStop(cancel) {
 				return ctx
 			}
 		}
